@@ -474,6 +474,135 @@ class C16(Prop):
         return oracle.c01(case, obs, crash) + oracle.c16(case, obs, crash)
 
 
-ALL = {p.pid: p for p in [C02(), C03(), C08(), C11(), C12()]}
+def cache_case(rng, tables):
+    """redefinitions, same ids in both protocols, garbage and fixed-format packets in between,
+    1-3 parsers, sometimes a restricted allowed set, random partition into calls"""
+    nparsers = rng.choice([1, 1, 2, 3])
+    exs = [gen.Exporter(rng, tables, rng.random() < 0.7) for _ in range(nparsers)]
+    for ex in exs:
+        ex.ids = [256, 257, 300]           # few ids: redefinitions and cross-protocol clashes are common
+    ops = []
+    for k in range(nparsers):
+        ops.append("P %d" % k)
+        if rng.random() < 0.2:
+            ops.append("A %d %s" % (k, ",".join(map(str, rng.sample([5, 7, 9, 10], rng.choice([2, 3]))))))
+    for _ in range(rng.choice([2, 3, 4, 6, 8])):
+        k = rng.randrange(nparsers)
+        buf = b""
+        for _ in range(rng.choice([1, 1, 2, 3])):
+            r = rng.random()
+            if r < 0.75:
+                b, _d = gen.rand_packet(rng, exs[k])
+            elif r < 0.85:
+                b, _d = gen.rand_packet(rng, exs[k])
+                b = gen.mutate(rng, b)
+            else:
+                b = gen.malformed(rng).ops[-1].split()[2]
+                b = bytes.fromhex(b) if b != "-" else b""
+            buf += b
+        ops.append("B %d %s" % (k, hexs(buf)))
+    return Case("cache-history", ops)
+
+
+class C06(Prop):
+    pid = "C06"
+    keys = ["R", "S"]
+    technique = "Coq: monotonicity invariant over histories (caches only grow), per-step frame conditions by protocol and version gate, last-definition-wins lemma for the insert fold; correspondence on S after every call, 1-3 parsers"
+    level_text = ("Theorems C06_* (coq/Props/C06.v): for every buffer, state and allowed set no template is ever evicted (invariant lifted over the "
+                  "packet loop, hence over every history of calls); a step whose version word is not 9 (not 10) leaves the V9 (IPFIX) caches equal, a "
+                  "disallowed or missing version word leaves the whole state equal; after a template flowset an id maps to the last record of that id; "
+                  "data is decoded with the entry of the state just before it; splitting into calls is immaterial (C11); no static or shared item exists.")
+    level_note = "the clause 'only complete, well-formed template records are inserted' is covered by correspondence on S (not a theorem yet); instance isolation is by construction in the model and by the regenerated static-items inventory plus multi-parser correspondence for the crate"
+    rule = ("histories of 2-8 calls over 1-3 parsers: template definitions and redefinitions over 3 ids shared between V9 and IPFIX, data, fixed-format "
+            "packets, mutated packets and garbage, restricted allowed sets; caches compared after every call; non-trivial = at least one template cached; "
+            "distinct by hash")
+
+    def cases(self, rng, tables, n, tier):
+        return [cache_case(rng, tables) for _ in range(n)]
+
+    def oracle(self, case, obs, crash, tables):
+        return oracle.c01(case, obs, crash) + oracle.c06(case, obs, crash)
+
+    def nontrivial(self, case, obs):
+        for o in obs:
+            S = get(o, "S")
+            if S is not None and any(get(S, m) for m in ("v9_t", "v9_o", "ix_t", "ix_o")):
+                return True
+        return False
+
+
+def unknown_case(rng, tables):
+    ex = gen.Exporter(rng, tables, True)
+    other = gen.Exporter(rng, tables, True)
+    ops = ["P 0", "P 1"]
+    unknown = {}
+    known = {}
+    n = 0
+
+    def add(line):
+        nonlocal n
+        ops.append(line)
+        n += 1
+        return n - 1
+
+    proto = rng.choice(["V9", "IPFix"])
+    # some unrelated traffic first (gives earlier packets in the same buffer and a non-empty cache)
+    pre = b""
+    if rng.random() < 0.6:
+        ex.ids = [400, 401]
+        pre, _ = gen.rand_packet(rng, ex, (5, 7, 9, 10))
+        if rng.random() < 0.5:
+            add("B 0 " + hexs(pre))
+            pre = b""
+    tid = rng.choice([256, 257, 300, 1000, 65535])
+    if proto == "V9":
+        tp, dp, tid, nrec = gen.v9_template_then_data(rng, ex, tid)
+    else:
+        tp, dset, tid, nrec = gen.ix_template_then_data(rng, ex, tid)
+        before = []
+        if rng.random() < 0.5 and ex.ix_t:
+            pass
+        dp = gen.ipfix_msg(before + [dset])
+    k = rng.random()
+    if k < 0.25:
+        # the template is known only to the other protocol
+        if proto == "V9":
+            otp, _ds, _t, _n = gen.ix_template_then_data(rng, other, tid)
+        else:
+            otp, _dp, _t, _n = gen.v9_template_then_data(rng, other, tid)
+        add("B 0 " + hexs(otp))
+    elif k < 0.5:
+        # the template is known only to another parser instance
+        add("B 1 " + hexs(tp))
+    i = add("B 0 " + hexs(pre + dp))
+    unknown[i] = (proto, tid)
+    if rng.random() < 0.8:
+        add("B 0 " + hexs(tp))
+        j = add("B 0 " + hexs(dp))
+        known[j] = (proto, tid, nrec)
+    return Case("data-before-template", ops, {"unknown": unknown, "known": known})
+
+
+class C07(Prop):
+    pid = "C07"
+    keys = ["R", "S"]
+    technique = "Coq: case analysis of the flowset/set dispatcher on lookup = None (fails, state unchanged), propagation through the V9 flowset loop and the IPFIX set loop; correspondence on data-before-template histories"
+    level_text = ("Theorems C07_* (coq/Props/C07.v): for every state in which an id has no template in either map of that protocol, a V9 flowset of that "
+                  "id (id not 0/1) fails whatever its bytes and the packet with it, an IPFIX set of that id (id >= 255) fails and ends the set loop "
+                  "successfully with the sets before it, the state is untouched in both cases, and the id stays unknown until a template of that id is "
+                  "inserted; the other protocol's maps are not arguments of the step.")
+    level_note = "the unwrap_or_default() fall-backs are absent from the model (the lookup that guards them is the one matched on); that they are unreachable in the crate is covered by correspondence"
+    rule = ("histories in which a data flowset/set arrives before its template: alone or after other packets in the same buffer, with the id defined only "
+            "for the other protocol or only in another parser instance, then (80%) the template and the same data again; non-trivial = the later data "
+            "decodes or the unknown-id packet follows a decoded packet; distinct by hash")
+
+    def cases(self, rng, tables, n, tier):
+        return [unknown_case(rng, tables) for _ in range(n)]
+
+    def oracle(self, case, obs, crash, tables):
+        return oracle.c01(case, obs, crash) + oracle.c07(case, obs, crash)
+
+
+ALL = {p.pid: p for p in [C01(), C02(), C03(), C06(), C07(), C08(), C11(), C12(), C14()]}
 
 NOT_CLAIMED = {}
